@@ -104,7 +104,7 @@ REGISTRY["C16"] = {
             "thresholds and with the concatenated in-memory batches. distinct = distinct event-log digest; "
             "non-trivial = at least two sessions",
     "components": REAL_KERNEL, "assumptions": KERNEL_ASSUME + [
-        "the look-ahead element a two-finger merge has fetched but not compared when the other side runs out may or may not have a row (both accepted)",
+        "every element a co-iteration fetched is an access and must have a row, including the look-ahead element read when the other side ran out",
         "destination-side traces of an inserting populate are only required to be stamp-ordered and complete"],
 }
 REGISTRY["C19"] = {
@@ -122,8 +122,8 @@ from .pipelinesim import PipelineSim  # noqa: E402
 
 REGISTRY["C17"] = {
     "world": PipelineSim, "level": "fault_enumeration", "budget": kernel_budget(20000, 400000),
-    "rule": "each evaluation is one sampled pipeline (synthetic well-formed read/write traces over 1-3 loop ranks, 1-2 "
-            "tensors, line sizes 1-4 elements, evict-on root or any outer rank, cache capacities from 0 to unbounded; "
+    "rule": "each evaluation is one sampled pipeline (synthetic well-formed read/write traces over 1-3 loop ranks, or the traces of a real kernel run under the real Metrics; 1-2 "
+            "tensors, optionally a second binding on an upper rank with another element size, line sizes 1-4 elements, evict-on root or any outer rank, cache capacities from 0 to unbounded; "
             "or a filterTrace / _combineTraces call) executed once undisturbed through the file seam and judged against "
             "the reference policy model, then once per file event n of that call with the call aborted (SimAbort, torn "
             "write) or failed (ENOSPC) at event n and restarted with the same arguments; the restart must return the "
@@ -163,7 +163,7 @@ REGISTRY["C13"] = {
         "file system": "real scratch files behind the interposer (worst-case buffering, abort at event n, torn writes)",
     },
     "assumptions": [
-        "clauses (a) nest -> tensor -> uncompress and (b) dictionary form are pure functions of their argument and are NOT decided by this technique",
+        "clauses (a) nest -> tensor -> uncompress and (b) dictionary form are pure functions of their argument: they are executed on sampled nests as a piggy-back check (sampled input generation, no fault or schedule dimension)",
         "tuple-coordinate tensors are not dumped (the YAML form of tuple coordinates is a separate, recorded finding)",
         "nothing is required of loading a torn file itself",
     ],
